@@ -67,14 +67,18 @@ structure PS where
   map : List (Lbl × Nat)
   deriving Repr
 
-/-- `nodeid` / `anonymousNode` / `get_bnode` / `_bnode`: the node for a label -/
+/-- `node = map.get(label); if node is None: node = BNode(); map[label] = node` -/
+def alloc (st : PS) (l : Lbl) : PS × Nat :=
+  match alookup st.map l with
+  | some b => (st, b)
+  | none => ({ fresh := st.fresh + 1, map := (l, st.fresh) :: st.map }, st.fresh)
+
+/-- `nodeid` / `anonymousNode` / `get_bnode` / `_bnode`: the node for a label.
+    `verbatim`: `BNode(label)`; the supply steps over that id (a uuid never equals an id in use). -/
 def nodeid (pol : Policy) (st : PS) (l : Lbl) : PS × Nat :=
   match pol, l with
   | .verbatim, .named n => ({ st with fresh := max st.fresh (n + 1) }, n)
-  | _, _ =>
-    match alookup st.map l with
-    | some b => (st, b)
-    | none => ({ fresh := st.fresh + 1, map := (l, st.fresh) :: st.map }, st.fresh)
+  | _, _ => alloc st l
 
 def term (pol : Policy) (st : PS) : DT → PS × T
   | .iri n => (st, .iri n)
